@@ -30,7 +30,7 @@ func (g *genCtx) perturbations(n int, scratch string) ([]perturb, []string) {
 		uname = u.Username
 	}
 	markers := []string{scratch, g.build, filepath.Dir(g.build), g.plugin}
-	if len(host) >= 4 {
+	if len(host) >= 4 && host != "localhost" {
 		markers = append(markers, host)
 	}
 	if len(uname) >= 4 && uname != "root" {
@@ -69,7 +69,8 @@ func (g *genCtx) runC13(reqs []*genReq) {
 	defer os.RemoveAll(scratch)
 	perts, markers := g.perturbations(n, scratch)
 	now := time.Now()
-	dates := []string{now.Format("2006-01-02"), now.Format("2006/01/02"), now.Format("Jan 2"), now.Format("Jan  2"), now.Format("02 Jan"), now.Format("January")}
+	// numeric renderings only: month names ("May") are ordinary words of the emitted comments
+	dates := []string{now.Format("2006-01-02"), now.Format("2006/01/02"), now.Format("02.01.2006"), now.Format("01/02/2006"), now.Format("20060102")}
 
 	type verdict struct {
 		base     *runRes
